@@ -718,7 +718,12 @@ def _iter_unused_names(
                 deferred_reads[name.id].add(funcdef)
 
     names_in_scope = {name.id for name in core.walk(scope, ast.Name)}
-    for name in names_in_scope - preserve:
+    # A nonlocal statement needs a binding of the name in the enclosing function, and the
+    # statement itself would still mention the name after all its ast.Name nodes are gone.
+    declared_names = {
+        name for node in core.walk(scope, (ast.Nonlocal, ast.Global)) for name in node.names
+    }
+    for name in names_in_scope - preserve - declared_names:
         if not any(core.walk(scope, ast.Name(id=name, ctx=(ast.Load)))):
             for node in core.walk(scope, ast.Name(id=name)):
                 yield node
